@@ -1,6 +1,6 @@
 (* PathMatcher WITH Create only adds: whatever the document held at an address that is not
    comparable with (at, above or below) an address the matcher returns is still there afterwards. *)
-From KV Require Import Base.Regex Yaml.Match Yaml.MatchProofs Yaml.MatchTotalProofs Yaml.MatchCreateProofs.
+From KV Require Import Base.Regex Yaml.Match Yaml.MatchProofs Yaml.MatchCreateProofs.
 
 Ltac inv H := inversion H; subst; clear H.
 
@@ -117,7 +117,7 @@ Qed.
 Lemma retry_after_append visit new_elem f l es' hits :
   (forall x h, visit new_elem = Ok (x, h) -> has_at h \/ (x = new_elem /\ h = [])) ->
   (visit new_elem = Ok (new_elem, []) -> forall e, In e l -> visit e = Ok (e, [])) ->
-  retry_loop visit new_elem true f (l ++ [new_elem]) = Ok (es', hits) -> has_at hits.
+  retry_loop visit new_elem true true f (l ++ [new_elem]) = Ok (es', hits) -> has_at hits.
 Proof.
   intros H1 H2 R. destruct f as [|f]; cbn in R; [discriminate|].
   destruct (visit_elems visit 0 (l ++ [new_elem])) as [[es1 h1]| | |] eqn:V; cbn in R; try discriminate.
@@ -127,10 +127,9 @@ Proof.
     { eapply visit_elems_last_at; eauto. intros x' h' E. rewrite Fx in E. inv E. auto. }
     destruct h1 as [|h0 ht]; [destruct H as (b & [])|]. inv R. auto.
   - exfalso.
-    assert (D : retry_loop visit new_elem true (S f) (l ++ [new_elem]) = Diverge).
-    { apply retry_diverges; auto. intros e He. apply in_app_or in He.
-      destruct He as [He|[<-|[]]]; auto. }
-    cbn in D. rewrite V in D. cbn in D. destruct h1; congruence.
+    rewrite visit_elems_nohit in V.
+    + inv V. cbn in R. discriminate.
+    + intros e He. apply in_app_or in He. destruct He as [He|[<-|[]]]; auto.
 Qed.
 
 Section Frame.
@@ -184,9 +183,9 @@ Section Frame.
         * destruct n as [t s v0|kvs|es]; try (cbn in W; discriminate W).
           -- rewrite (wfree_not_null _ W) in H. discriminate.
           -- discriminate.
-        * change (retry_loop _ (pm_new_elem fld v) (is_create (Some k)) fuel [])
-            with (retry_loop (visit_one fuel rest fld v) (pm_new_elem fld v) true fuel []) in H.
-          destruct (retry_loop (visit_one fuel rest fld v) (pm_new_elem fld v) true fuel []) as [[es1 h1]| | |] eqn:R;
+        * change (retry_loop _ (pm_new_elem fld v) (is_create (Some k)) false fuel [])
+            with (retry_loop (visit_one fuel rest fld v) (pm_new_elem fld v) true false fuel []) in H.
+          destruct (retry_loop (visit_one fuel rest fld v) (pm_new_elem fld v) true false fuel []) as [[es1 h1]| | |] eqn:R;
             cbn in H; inv H.
           destruct fuel as [|f]; cbn in R; [discriminate|].
           eapply (retry_after_append _ _ f [] es1 hits); [| |exact R].
@@ -289,9 +288,9 @@ Section Frame.
         * destruct (is_null _); [|discriminate].
           destruct (retry_loop _ _ _ _ _) as [[es1 h1]| | |]; cbn in H; inv H. auto.
         * discriminate.
-        * change (retry_loop _ (pm_new_elem fld v) (is_create (Some k)) fuel es)
-            with (retry_loop (visit_one fuel rest fld v) (pm_new_elem fld v) true fuel es) in H.
-          destruct (retry_loop (visit_one fuel rest fld v) (pm_new_elem fld v) true fuel es) as [[es1 h1]| | |] eqn:R;
+        * change (retry_loop _ (pm_new_elem fld v) (is_create (Some k)) false fuel es)
+            with (retry_loop (visit_one fuel rest fld v) (pm_new_elem fld v) true false fuel es) in H.
+          destruct (retry_loop (visit_one fuel rest fld v) (pm_new_elem fld v) true false fuel es) as [[es1 h1]| | |] eqn:R;
             cbn in H; inv H. f_equal.
           assert (Vsame : forall e e' h, visit_one fuel rest fld v e = Ok (e', h) -> no_at h -> e' = e).
           { intros e e' h Hv Hn. unfold visit_one in Hv.
@@ -336,12 +335,12 @@ Section Frame.
 
   Lemma retry_keeps visit new_elem :
     (forall e e' h, visit e = Ok (e', h) -> keeps e e' h) ->
-    forall f es es' hits, retry_loop visit new_elem true f es = Ok (es', hits) ->
+    forall f app es es' hits, retry_loop visit new_elem true app f es = Ok (es', hits) ->
     forall i c a' x, nth_error es i = Some c -> get_at a' c = Some x ->
       (forall h, In (HAt h) hits -> comparable (i :: a') h = false) ->
       exists c', nth_error es' i = Some c' /\ get_at a' c' = Some x.
   Proof.
-    intros Vk. induction f as [|f IHf]; intros es es' hits R i c a' x Hn Hg Hc; cbn in R; [discriminate|].
+    intros Vk. induction f as [|f IHf]; intros app es es' hits R i c a' x Hn Hg Hc; cbn in R; [discriminate|].
     destruct (visit_elems visit 0 es) as [[e1 g1]| | |] eqn:V; cbn in R; try discriminate.
     destruct (visit_elems_inv _ _ _ _ _ V) as [L N].
     destruct (N i c Hn) as (c1 & h & Fc & Hn1 & A & B). cbn in A, B.
@@ -349,8 +348,9 @@ Section Frame.
     - (* nothing returned: the element is kept entirely; then the retry on the extended list *)
       assert (K : get_at a' c1 = Some x).
       { eapply (Vk _ _ _ Fc); eauto. intros b Hb. destruct (A b Hb). }
-      eapply (IHf _ _ _ R i c1 a' x); eauto.
-      rewrite nth_error_app1; auto. apply nth_error_Some. congruence.
+      destruct app; cbn in R; try discriminate;
+        (eapply (IHf _ _ _ _ R i c1 a' x); eauto;
+         rewrite nth_error_app1; auto; apply nth_error_Some; congruence).
     - inv R. exists c1. split; auto. eapply (Vk _ _ _ Fc); eauto.
       intros b Hb. specialize (Hc _ (A b Hb)). cbn in Hc. rewrite Nat.eqb_refl in Hc. auto.
   Qed.
@@ -382,12 +382,12 @@ Section Frame.
         destruct n as [t s v0|kvs|es]; try (cbn in Hg; discriminate Hg).
         * discriminate.
         * cbn in Hg. destruct (nth_error es i) as [c|] eqn:Hn; [|discriminate].
-          change (retry_loop _ (pm_new_elem fld v) (is_create (Some k)) fuel es)
-            with (retry_loop (visit_one fuel rest fld v) (pm_new_elem fld v) true fuel es) in H.
-          destruct (retry_loop (visit_one fuel rest fld v) (pm_new_elem fld v) true fuel es) as [[es1 h1]| | |] eqn:R;
+          change (retry_loop _ (pm_new_elem fld v) (is_create (Some k)) false fuel es)
+            with (retry_loop (visit_one fuel rest fld v) (pm_new_elem fld v) true false fuel es) in H.
+          destruct (retry_loop (visit_one fuel rest fld v) (pm_new_elem fld v) true false fuel es) as [[es1 h1]| | |] eqn:R;
             cbn in H; inv H. cbn.
           destruct (retry_keeps (visit_one fuel rest fld v) (pm_new_elem fld v)) with
-            (f := fuel) (es := es) (es' := es1) (hits := hits) (i := i) (c := c) (a' := a') (x := x)
+            (f := fuel) (app := false) (es := es) (es' := es1) (hits := hits) (i := i) (c := c) (a' := a') (x := x)
             as (c' & Hn' & Hg'); auto.
           { intros e e' h Hv. unfold visit_one in Hv.
             destruct (elem_regex parse v) as [r| | |]; cbn in Hv; try discriminate.
